@@ -15,7 +15,7 @@ Here is a semantic property that the code base is supposed to satisfy:
   Quantified over: {p['quantifier']['text']}
   Code it is anchored in: {', '.join(p['anchors']['files'])}
 
-YOUR TASK: produce TWO different, independent, realistic changes ("seeded bugs") to the source of JeLLyFysh (Python, C, or shipped .ini/config files under jellyfysh/) each of which BREAKS this property while the code still builds and the ENTIRE existing test suite still passes. Think of the kind of slip a maintainer could plausibly make in a refactoring or an optimisation (an off-by-one, a dropped copy, a wrong comparison operator, an update done in the wrong order, a missing entry in a config list, a stale cache, swapped arguments, a forgotten special case ...). Each change must need something SPECIFIC in order to manifest -- a particular multi-step sequence of operations, an unusual or boundary input, a particular interleaving/arrival order, a dump/crash at a particular point, or two cooperating sites that each look fine alone -- NOT something ordinary use would expose at once (e.g. not "every run crashes immediately", not something that makes all results grossly wrong). Keep each change small (a few lines). The two changes should attack different mechanisms/places if possible. Consider ALL the anchored files and the code they call (not only the first or most obvious one), and prefer a less obvious site or interaction over the first idea that comes to mind: two other teams have already tried the obvious and the next-most-obvious single-line slips for this property (comparison operators, off-by-one in the central routine, a dropped copy): look for a different mechanism -- an interaction between two modules, a rarely taken branch, state that survives from an earlier call, pickling/copying, configuration wiring, or the C code.
+YOUR TASK: produce TWO different, independent, realistic changes ("seeded bugs") to the source of JeLLyFysh (Python, C, or shipped .ini/config files under jellyfysh/) each of which BREAKS this property while the code still builds and the ENTIRE existing test suite still passes. Think of the kind of slip a maintainer could plausibly make in a refactoring or an optimisation (an off-by-one, a dropped copy, a wrong comparison operator, an update done in the wrong order, a missing entry in a config list, a stale cache, swapped arguments, a forgotten special case ...). Each change must need something SPECIFIC in order to manifest -- a particular multi-step sequence of operations, an unusual or boundary input, a particular interleaving/arrival order, a dump/crash at a particular point, or two cooperating sites that each look fine alone -- NOT something ordinary use would expose at once (e.g. not "every run crashes immediately", not something that makes all results grossly wrong). Keep each change small (a few lines). The two changes should attack different mechanisms/places if possible. Consider ALL the anchored files and the code they call (not only the first or most obvious one), and prefer a less obvious site or interaction over the first idea that comes to mind: three other teams have already tried the obvious and the next-most-obvious slips for this property (comparison operators, off-by-one in the central routine, a dropped copy, swapped constructor arguments in __setstate__, re-inserting heap entries through push_event on unpickling, a tag missing from one create/trash list of a shipped .ini file, a cache that survives reset): find something DIFFERENT from all of these -- e.g. an interaction between two modules that each look fine, a rarely taken branch (periodic wrap, last cell, zero or negative values, composite objects with 3 point masses, more than 2 units in a cell, counter overflow), an ordering assumption between two calls, arithmetic that is only wrong for non-cubic boxes or box lengths other than 1, or a change in the C code.
 
 For each change (call them a and b) deliver, inside {wt}/_seed/a/ and {wt}/_seed/b/ :
   1. patch.diff  -- produced with `git -C {wt} diff -- jellyfysh > _seed/a/patch.diff` (relative to the pinned commit, only the seeded change, applying cleanly with `git apply` at the repo root; do not include _seed, compiled files or test changes),
